@@ -117,14 +117,16 @@ func init() {
 				})
 				R.decide("C11.d", kNewPC+":same-nu", "the commitments are computed over that same Nu and that same witness", okBase && okSecrets, fmt.Sprintf("bases over its Nu: %v, secrets are the witness: %v", okBase, okSecrets), P.Pos(fn.Pos()))
 				if it := mustFunc(P, R, "C11.d", "revocation.(*proofStructure).isTrue"); it != nil {
+					be := P.bigEval(it)
 					mp(P, R, "C11.d", FuncKey(it)+":relation", "isTrue is true only if u^alpha mod n compared equal to nu", it, AcceptTrue(0), &MustPass{Match: func(a Atom) bool {
-						x, y, ok := parseEq(a)
+						t0, t1, ok := eqTerms(a, be)
 						if !ok {
 							return false
 						}
-						for _, pr := range [][2]ssa.Value{{x, y}, {y, x}} {
-							c, isC := pr[0].(*ssa.Call)
-							if isC && bigMethod(c) == "Exp" && strings.Contains(desc(c.Call.Args[1]), `"u"`) && strings.Contains(desc(c.Call.Args[2]), `"alpha"`) && desc(c.Call.Args[3]) == "arg#3" && desc(pr[1]) == "arg#2" {
+						for _, pr := range [][2]Term{{t0, t1}, {t1, t0}} {
+							n := pr[0].opaqueName()
+							if strings.HasPrefix(n, "Exp(") && strings.Contains(n, `"u")`) && strings.Contains(n, `"alpha")`) && strings.HasSuffix(n, ", arg#3)") &&
+								strings.Index(n, `"u")`) < strings.Index(n, `"alpha")`) && pr[1].equal(tsym("arg#2")) {
 								return true
 							}
 						}
